@@ -1,9 +1,9 @@
 SPECIFICATION Spec
 CONSTANTS Peers = {"a", "b"}
-          MaxH = 3
-          MaxPend = 2
+          MaxH = 2
+          MaxPend = 1
           MaxEnv = 2
-          MaxFire = 2
-          MaxDialFail = 2
+          MaxFire = 1
+          MaxDialFail = 1
           Devs = {}
 INVARIANTS TypeOK ScheduledWhileRunning ArmedDelayGrown NoTimerAfterStop NoDialAfterStop ConnectedQuiet
